@@ -439,7 +439,7 @@ def r_overrides(ck: Checker) -> None:
                     ck.holds("R-TAG-FIRST", f, dct, what3)
                 else:
                     bad = True
-                    ck.violation("R-TAG-FIRST", f, dct, what3, construct=f"{f.qualname}: literal mapping with a type tag is not guarded by `not SKIP_CLASS`")
+                    ck.violation("R-TAG-FIRST", f, dct, what3, positive=True, construct=f"{f.qualname}: literal mapping with a type tag is not guarded by `not SKIP_CLASS`")
             if None in ks:
                 if bad:
                     continue
